@@ -301,8 +301,186 @@ func genMuxFacts(repo, out string, _ []string) error {
 		fmt.Fprintf(&b, "\n  ⟨%q, %q, %q, %q, %v, %d⟩", u.file, u.fn, u.use, u.guards, u.checkOnly, u.ord)
 	}
 	b.WriteString("]\n\n")
+	calls, err := mfUpgraderCalls(repo)
+	if err != nil {
+		return err
+	}
+	b.WriteString("/-- A call of the node-LOCAL upgrade manager (`upgrader.<method>`) in the abci package or an\n")
+	b.WriteString("application: the statement that consumes its result (the enclosing if/switch, or the assignment\n")
+	b.WriteString("and the statement after it), and every `return` / `panic` inside that statement. -/\n")
+	b.WriteString("structure UpgraderCall where\n  file : String\n  fn : String\n  method : String\n  stmt : String\n  exits : List String\n  deriving DecidableEq, Repr\n\n")
+	b.WriteString("def upgraderCalls : List UpgraderCall := [")
+	for i, c := range calls {
+		if i > 0 {
+			b.WriteString(",")
+		}
+		ex := make([]string, len(c.exits))
+		for j, e := range c.exits {
+			ex[j] = fmt.Sprintf("%q", e)
+		}
+		fmt.Fprintf(&b, "\n  ⟨%q, %q, %q,\n    %q,\n    [%s]⟩", c.file, c.fn, c.method, c.stmt, strings.Join(ex, ", "))
+	}
+	b.WriteString("]\n\n")
 	b.WriteString("end Generated.MuxFacts\n")
 	return os.WriteFile(out, []byte(b.String()), 0o644)
+}
+
+// ---- calls of the node-local upgrade manager ---------------------------------------------
+
+type mfCall struct {
+	file, fn, method, stmt string
+	exits                  []string
+}
+
+// upgraderMethod returns the method name if n contains a call `upgrader.<M>(…)`.
+func mfUpgraderMethod(n ast.Node) string {
+	found := ""
+	if n == nil {
+		return ""
+	}
+	ast.Inspect(n, func(c ast.Node) bool {
+		if found != "" {
+			return false
+		}
+		if _, isFn := c.(*ast.FuncLit); isFn {
+			return false
+		}
+		if call, ok := c.(*ast.CallExpr); ok {
+			if sel, ok := call.Fun.(*ast.SelectorExpr); ok {
+				if id, ok := sel.X.(*ast.Ident); ok && id.Name == "upgrader" {
+					found = sel.Sel.Name
+				}
+			}
+		}
+		return true
+	})
+	return found
+}
+
+func (m *mfFile) exitsIn(n ast.Node) []string {
+	var out []string
+	if n == nil {
+		return nil
+	}
+	ast.Inspect(n, func(c ast.Node) bool {
+		switch x := c.(type) {
+		case *ast.ReturnStmt:
+			out = append(out, m.src(x))
+		case *ast.CallExpr:
+			if id, ok := x.Fun.(*ast.Ident); ok && id.Name == "panic" {
+				out = append(out, m.src(x))
+			}
+		}
+		return true
+	})
+	return out
+}
+
+func mfUpgraderCalls(repo string) ([]mfCall, error) {
+	var out []mfCall
+	for _, r := range []string{"abci", "apps"} {
+		root := filepath.Join(repo, "go", "consensus", "cometbft", r)
+		err := filepath.Walk(root, func(path string, info os.FileInfo, err error) error {
+			if err != nil {
+				return err
+			}
+			if info.IsDir() || !strings.HasSuffix(path, ".go") || strings.HasSuffix(path, "_test.go") {
+				return nil
+			}
+			src, err := os.ReadFile(path)
+			if err != nil {
+				return err
+			}
+			if bytes.Contains(src, []byte("//go:build verif")) {
+				return nil
+			}
+			m, err := mfParse(path)
+			if err != nil {
+				return err
+			}
+			rel, _ := filepath.Rel(repo, path)
+			for _, d := range m.f.Decls {
+				fd, ok := d.(*ast.FuncDecl)
+				if !ok || fd.Body == nil {
+					continue
+				}
+				fn := fd.Name.Name
+				if fd.Recv != nil && len(fd.Recv.List) > 0 {
+					fn = strings.TrimPrefix(m.src(fd.Recv.List[0].Type), "*") + "." + fn
+				}
+				var list func(stmts []ast.Stmt)
+				var one func(st ast.Stmt, next ast.Stmt)
+				list = func(stmts []ast.Stmt) {
+					for i, st := range stmts {
+						var next ast.Stmt
+						if i+1 < len(stmts) {
+							next = stmts[i+1]
+						}
+						one(st, next)
+					}
+				}
+				one = func(st ast.Stmt, next ast.Stmt) {
+					switch x := st.(type) {
+					case *ast.IfStmt:
+						meth := mfUpgraderMethod(x.Init)
+						if meth == "" {
+							meth = mfUpgraderMethod(x.Cond)
+						}
+						if meth != "" {
+							out = append(out, mfCall{rel, fn, meth, m.src(x), m.exitsIn(x)})
+						}
+						list(x.Body.List)
+						if x.Else != nil {
+							one(x.Else, nil)
+						}
+					case *ast.SwitchStmt:
+						meth := mfUpgraderMethod(x.Init)
+						if meth == "" && x.Tag != nil {
+							meth = mfUpgraderMethod(x.Tag)
+						}
+						if meth != "" {
+							out = append(out, mfCall{rel, fn, meth, m.src(x), m.exitsIn(x)})
+						}
+						for _, c := range x.Body.List {
+							list(c.(*ast.CaseClause).Body)
+						}
+					case *ast.BlockStmt:
+						list(x.List)
+					case *ast.ForStmt:
+						list(x.Body.List)
+					case *ast.RangeStmt:
+						list(x.Body.List)
+					case *ast.TypeSwitchStmt:
+						for _, c := range x.Body.List {
+							list(c.(*ast.CaseClause).Body)
+						}
+					case *ast.SelectStmt:
+						for _, c := range x.Body.List {
+							list(c.(*ast.CommClause).Body)
+						}
+					case *ast.LabeledStmt:
+						one(x.Stmt, next)
+					default:
+						if meth := mfUpgraderMethod(st); meth != "" {
+							text := m.src(st)
+							var exits []string
+							if next != nil {
+								text += " ; " + m.src(next)
+								exits = m.exitsIn(next)
+							}
+							out = append(out, mfCall{rel, fn, meth, text, exits})
+						}
+					}
+				}
+				list(fd.Body.List)
+			}
+			return nil
+		})
+		if err != nil {
+			return nil, err
+		}
+	}
+	return out, nil
 }
 
 // ---- replica-local inputs -------------------------------------------------------------------
